@@ -1,17 +1,3 @@
-def _compare(rec):
-    # exact, except the bech32 round trip with a caller-supplied prefix: the model cannot tell whether the external
-    # crate accepts the prefix (it prints Q=?); the judge then requires "refused, or decodes to the same address"
-    i, m = rec["impl"].split(" "), rec["model"].split(" ")
-    if len(i) != len(m):
-        return False
-    for a, b in zip(i, m):
-        if b == "Q=?" and a.startswith("Q="):
-            continue
-        if a != b:
-            return False
-    return True
-
-
 def _nontrivial(rec):
     # non-trivial = the model produced an address (strict or embedded parse succeeded with a non-malformed address, or a
     # value was written and read back) or a Base58 text that decodes
@@ -43,7 +29,7 @@ CFG = {
                  "C11_base58_empty_refuted", "C11_byron_base58", "C11_bech32", "C11_embedded_total", "C11_embedded_total_refuted",
                  "C11_embedded_verbatim", "C11_embedded_verbatim_refuted", "C11_lenient_drops_trailing"],
     "allowed_axioms": [],
-    "compare": _compare,
+    "compare": "exact",
     "nontrivial": _nontrivial,
     "gen_timeout": 900,
     "rule": "cases: (dec) all 256 header bytes x total lengths 0..81 (thorough 0..120) with random hash bytes and var-nat shaped pointer "
